@@ -3,7 +3,8 @@ package main
 // Suite c14 — storage failures and crashes fail closed.
 // For every flow of DESIGN.md Appendix A: the request is served by the REAL provider through the
 // fault-injecting storage decorator with an error (or a not-found on reads) injected at every
-// storage-call position, singly (quick) and in pairs (thorough), and is aborted before every
+// storage-call position, singly and in PAIRS (a second fault at every later position the singly-faulted run
+// reaches and at two positions beyond its last call), and is aborted before every
 // position (crash), after which a FRESH provider instance over the same stores is asked again for
 // every credential.  Recorded per run: the answer, the decorator's call log, the store afterwards
 // and the answers after the restart.  Corr/C14.v runs the model on the same pre-history and plan
@@ -20,6 +21,7 @@ import (
 	"path/filepath"
 	"sort"
 	"strings"
+	"sync"
 
 	"github.com/luikyv/go-oidc/pkg/goidc"
 )
@@ -413,6 +415,12 @@ func c14PageThenError(x *Obs) (string, bool) {
 }
 
 func c14Run(sc c14Scn, plan []c14Fault, crashAt int, note string) c14Case {
+	if jwtbSpecHasGrant(sc.Spec) {
+		// worlds with the jwt-bearer grant share the package-level anonymous client of internal/token, which
+		// NewWorld puts back into its start-of-process state (jwtb_anon.go): one such world at a time
+		jwtbWorldMu.Lock()
+		defer jwtbWorldMu.Unlock()
+	}
 	w, err := NewWorld(sc.Spec)
 	if err != nil {
 		panic(err)
@@ -446,6 +454,36 @@ func c14Run(sc c14Scn, plan []c14Fault, crashAt int, note string) c14Case {
 		c.PostObs = append(c.PostObs, w.Exec(o))
 	}
 	return c
+}
+
+// c14Parallel: f(0..n-1) on eight goroutines, results in index order
+func c14Parallel[T any](n int, f func(i int) T) []T {
+	out := make([]T, n)
+	var wg sync.WaitGroup
+	sem := make(chan struct{}, 8)
+	var pmu sync.Mutex
+	var pnc any
+	for i := 0; i < n; i++ {
+		wg.Add(1)
+		sem <- struct{}{}
+		go func(i int) {
+			defer wg.Done()
+			defer func() { <-sem }()
+			defer func() {
+				if r := recover(); r != nil {
+					pmu.Lock()
+					pnc = r
+					pmu.Unlock()
+				}
+			}()
+			out[i] = f(i)
+		}(i)
+	}
+	wg.Wait()
+	if pnc != nil {
+		panic(pnc)
+	}
+	return out
 }
 
 func c14FaultsAt(pos int, k CallKind) []c14Fault {
@@ -750,69 +788,179 @@ func init() {
 		} else {
 			cfgs = all
 		}
+		// every run builds its own world: the runs of one phase are independent and made on several goroutines
+		// (results in the order of the jobs; the scenario builders above have warmed the key / hash caches)
+		type single struct {
+			sc  c14Scn
+			tag string
+			f   c14Fault
+			one c14Case
+		}
 		for _, cf := range cfgs {
-			for _, sc := range c14Scenarios(cf.dyn, cf.rot, cf.cl) {
-				tag := fmt.Sprintf("%s[dyn=%v rot=%v c%d]", sc.Name, cf.dyn, cf.rot, cf.cl)
-				base := c14Run(sc, nil, -1, tag+" fault-free")
-				addCase(base)
-				L := base.Log
-				// single faults at every position
+			scs := c14Scenarios(cf.dyn, cf.rot, cf.cl)
+			tags := make([]string, len(scs))
+			for i, sc := range scs {
+				tags[i] = fmt.Sprintf("%s[dyn=%v rot=%v c%d]", sc.Name, cf.dyn, cf.rot, cf.cl)
+			}
+			bases := c14Parallel(len(scs), func(i int) c14Case { return c14Run(scs[i], nil, -1, tags[i]+" fault-free") })
+			// phase 1: single faults at every position, crash before every position
+			var jobs []func() c14Case
+			var singles []single
+			var isSingle []int // job index -> index into singles, -1
+			crashToo := make([]bool, len(scs))
+			for i, sc := range scs {
+				sc, tag, L := sc, tags[i], bases[i].Log
 				for pos, k := range L {
 					for _, f := range c14FaultsAt(pos, k) {
-						addCase(c14Run(sc, []c14Fault{f}, -1, fmt.Sprintf("%s fault %s@%d(%s)", tag, c14FaultCoq[f.F], pos, c14KindCoq[k])))
+						f, note := f, fmt.Sprintf("%s fault %s@%d(%s)", tag, c14FaultCoq[f.F], pos, c14KindCoq[k])
+						isSingle = append(isSingle, len(singles))
+						singles = append(singles, single{sc: sc, tag: tag, f: f})
+						jobs = append(jobs, func() c14Case { return c14Run(sc, []c14Fault{f}, -1, note) })
 					}
 				}
 				// crash before every position (position len(L) = after the last call: the request completes)
 				for pos := range L {
-					addCase(c14Run(sc, nil, pos, fmt.Sprintf("%s crash-before-call %d(%s)", tag, pos, c14KindCoq[L[pos]])))
+					pos, note := pos, fmt.Sprintf("%s crash-before-call %d(%s)", tag, pos, c14KindCoq[L[pos]])
+					isSingle = append(isSingle, -1)
+					jobs = append(jobs, func() c14Case { return c14Run(sc, nil, pos, note) })
 				}
-				// pairs: a second fault at every position the singly-faulted run reaches
-				if !ctx.Quick() || ctx.R.Intn(6) == 0 {
-					for pos, k := range L {
-						for _, f := range c14FaultsAt(pos, k) {
-							one := c14Run(sc, []c14Fault{f}, -1, "")
-							for pos2 := pos + 1; pos2 < len(one.Log); pos2++ {
-								for _, f2 := range c14FaultsAt(pos2, one.Log[pos2]) {
-									addCase(c14Run(sc, []c14Fault{f, f2}, -1, fmt.Sprintf("%s faults %s@%d %s@%d", tag, c14FaultCoq[f.F], pos, c14FaultCoq[f2.F], pos2)))
-								}
-							}
-							// a fault followed by a crash
-							for pos2 := pos + 1; pos2 < len(one.Log); pos2++ {
-								addCase(c14Run(sc, []c14Fault{f}, pos2, fmt.Sprintf("%s fault %s@%d then crash-before-call %d", tag, c14FaultCoq[f.F], pos, pos2)))
-							}
+				crashToo[i] = !ctx.Quick() || ctx.R.Intn(6) == 0
+			}
+			res := c14Parallel(len(jobs), func(i int) c14Case { return jobs[i]() })
+			scIdx := map[string]int{}
+			for i := range scs {
+				scIdx[tags[i]] = i
+			}
+			for i := range scs {
+				addCase(bases[i])
+			}
+			for j, c := range res {
+				addCase(c)
+				if isSingle[j] >= 0 {
+					singles[isSingle[j]].one = c
+				}
+			}
+			// phase 2: PAIRS of faults in one request - for every single fault, a second fault at every LATER position:
+			// the positions the singly-faulted run reaches (its error path may perform storage calls the fault-free
+			// path does not) and two positions BEYOND its last call, so that a storage call which only a changed error
+			// path performs (a re-read after a failed delete ...) is hit as well; error x error, error x not-found,
+			// not-found x error (thorough: not-found x not-found too).  Beyond the log the kind of the call is not
+			// known: both fault kinds are planned (a not-found planned on a write is no fault, for the decorator and
+			// for the model alike).  A pair whose second position is not reached is the singly-faulted run again and
+			// is not kept.  Thorough (quick: one scenario in six): a fault followed by a crash.
+			jobs = nil
+			var second []int
+			for _, sg := range singles {
+				sg := sg
+				oneLog := sg.one.Log
+				for pos2 := sg.f.Pos + 1; pos2 < len(oneLog)+2; pos2++ {
+					var fs []c14Fault
+					if pos2 < len(oneLog) {
+						fs = c14FaultsAt(pos2, oneLog[pos2])
+					} else {
+						fs = []c14Fault{{pos2, FErr}, {pos2, FMiss}}
+					}
+					for _, f2 := range fs {
+						if ctx.Quick() && sg.f.F == FMiss && f2.F == FMiss {
+							continue
 						}
+						f2, note := f2, fmt.Sprintf("%s faults %s@%d %s@%d", sg.tag, c14FaultCoq[sg.f.F], sg.f.Pos, c14FaultCoq[f2.F], pos2)
+						second = append(second, pos2)
+						jobs = append(jobs, func() c14Case { return c14Run(sg.sc, []c14Fault{sg.f, f2}, -1, note) })
+					}
+				}
+				if crashToo[scIdx[sg.tag]] {
+					for pos2 := sg.f.Pos + 1; pos2 < len(oneLog); pos2++ {
+						pos2, note := pos2, fmt.Sprintf("%s fault %s@%d then crash-before-call %d", sg.tag, c14FaultCoq[sg.f.F], sg.f.Pos, pos2)
+						second = append(second, -1)
+						jobs = append(jobs, func() c14Case { return c14Run(sg.sc, []c14Fault{sg.f}, pos2, note) })
 					}
 				}
 			}
+			res = c14Parallel(len(jobs), func(i int) c14Case { return jobs[i]() })
+			for j, c := range res {
+				if second[j] >= 0 && len(c.Log) <= second[j] {
+					dist["kind:fault-pair-second-position-not-reached(not kept)"]++
+					continue
+				}
+				addCase(c)
+			}
 		}
-		// DCR: create / update / read / delete, every position, every fault kind, crash points
+		// DCR: create / update / read / delete, every position, every fault kind, crash points, and PAIRS: a second
+		// fault at every later position of the singly-faulted run and two positions beyond it (remove() performs
+		// Client, Delete: a plan that names call 2 is inert on the unchanged code and hits the re-read of a remove()
+		// that looks the client up again after a failed delete)
+		type dcrV struct {
+			rot          bool
+			kind         string
+			tokOK, valid bool
+			tag          string
+		}
+		var dvs []dcrV
 		for _, rot := range []bool{false, true} {
 			for _, v := range []struct {
 				kind         string
 				tokOK, valid bool
 			}{{"Create", true, true}, {"Create", true, false}, {"Update", true, true}, {"Update", false, true}, {"Update", true, false},
 				{"Read", true, true}, {"Read", false, true}, {"Delete", true, true}, {"Delete", false, true}} {
-				tag := fmt.Sprintf("dcr/%s[rot=%v tok=%v valid=%v]", v.kind, rot, v.tokOK, v.valid)
-				base := c14DcrRun(rot, v.kind, v.tokOK, v.valid, nil, -1, tag+" fault-free")
-				dcr = append(dcr, base)
-				for pos, k := range base.Log {
-					for _, f := range c14FaultsAt(pos, k) {
-						dcr = append(dcr, c14DcrRun(rot, v.kind, v.tokOK, v.valid, []c14Fault{f}, -1, fmt.Sprintf("%s fault %s@%d(%s)", tag, c14FaultCoq[f.F], pos, c14KindCoq[k])))
-					}
-					dcr = append(dcr, c14DcrRun(rot, v.kind, v.tokOK, v.valid, nil, pos, fmt.Sprintf("%s crash-before-call %d", tag, pos)))
-					for pos2 := pos + 1; pos2 < len(base.Log); pos2++ {
-						for _, f := range c14FaultsAt(pos, k) {
-							for _, f2 := range c14FaultsAt(pos2, base.Log[pos2]) {
-								dcr = append(dcr, c14DcrRun(rot, v.kind, v.tokOK, v.valid, []c14Fault{f, f2}, -1, fmt.Sprintf("%s faults @%d @%d", tag, pos, pos2)))
-							}
-						}
-					}
+				dvs = append(dvs, dcrV{rot, v.kind, v.tokOK, v.valid, fmt.Sprintf("dcr/%s[rot=%v tok=%v valid=%v]", v.kind, rot, v.tokOK, v.valid)})
+			}
+		}
+		dbases := c14Parallel(len(dvs), func(i int) c14DcrCase {
+			v := dvs[i]
+			return c14DcrRun(v.rot, v.kind, v.tokOK, v.valid, nil, -1, v.tag+" fault-free")
+		})
+		type dsingle struct {
+			v dcrV
+			f c14Fault
+		}
+		var djobs []func() c14DcrCase
+		var dsingles []dsingle
+		var dIsSingle []int
+		for i, v := range dvs {
+			v := v
+			for pos, k := range dbases[i].Log {
+				for _, f := range c14FaultsAt(pos, k) {
+					f, note := f, fmt.Sprintf("%s fault %s@%d(%s)", v.tag, c14FaultCoq[f.F], pos, c14KindCoq[k])
+					dIsSingle = append(dIsSingle, len(dsingles))
+					dsingles = append(dsingles, dsingle{v, f})
+					djobs = append(djobs, func() c14DcrCase { return c14DcrRun(v.rot, v.kind, v.tokOK, v.valid, []c14Fault{f}, -1, note) })
+				}
+				pos, note := pos, fmt.Sprintf("%s crash-before-call %d", v.tag, pos)
+				dIsSingle = append(dIsSingle, -1)
+				djobs = append(djobs, func() c14DcrCase { return c14DcrRun(v.rot, v.kind, v.tokOK, v.valid, nil, pos, note) })
+			}
+		}
+		dres := c14Parallel(len(djobs), func(i int) c14DcrCase { return djobs[i]() })
+		dcr = append(dcr, dbases...)
+		dcr = append(dcr, dres...)
+		djobs = nil
+		for j, one := range dres {
+			if dIsSingle[j] < 0 {
+				continue
+			}
+			sg := dsingles[dIsSingle[j]]
+			for pos2 := sg.f.Pos + 1; pos2 < len(one.Log)+2; pos2++ {
+				var fs []c14Fault
+				if pos2 < len(one.Log) {
+					fs = c14FaultsAt(pos2, one.Log[pos2])
+				} else {
+					fs = []c14Fault{{pos2, FErr}, {pos2, FMiss}}
+				}
+				for _, f2 := range fs {
+					v, f, f2 := sg.v, sg.f, f2
+					note := fmt.Sprintf("%s faults %s@%d %s@%d", v.tag, c14FaultCoq[f.F], f.Pos, c14FaultCoq[f2.F], pos2)
+					djobs = append(djobs, func() c14DcrCase { return c14DcrRun(v.rot, v.kind, v.tokOK, v.valid, []c14Fault{f, f2}, -1, note) })
 				}
 			}
 		}
+		dcr = append(dcr, c14Parallel(len(djobs), func(i int) c14DcrCase { return djobs[i]() })...)
 		for _, d := range dcr {
 			ctx.Meta.CaseNotes = append(ctx.Meta.CaseNotes, d.Note)
 			dist["flow:dcr/"+d.OpKind]++
+			if len(d.Plan) == 2 {
+				dist["kind:dcr-fault-pair"]++
+			}
 			if d.Obs != nil {
 				dist["answer:dcr:"+d.Obs.Kind]++
 				distinct[d.Note+"|"+d.Obs.Kind] = true
@@ -823,7 +971,7 @@ func init() {
 		c14WriteFiles(ctx, cases, dcr)
 		ctx.Meta.Cases = len(cases) + len(dcr)
 		ctx.Meta.Distinct = len(distinct)
-		ctx.Meta.Rule = "every flow of DESIGN Appendix A (token x authorization_code, replayed code, refresh_token, expired refresh token, client_credentials, jwt-bearer for an authenticated client and for nobody (the anonymous client), CIBA approve/deny/pending; introspect; revoke; userinfo; par; authorize plain / implicit / hybrid / in progress / failure / PAR / refused PAR; callback code / implicit / in progress / failure; bc-authorize; NotifyCIBASuccess push/ping/poll; NotifyCIBAFailure; DCR create/update/read/delete) x static and dynamic clients x every storage-call position x {error, not-found on reads} singly, x every crash point with a restarted provider, thorough: x all pairs and fault-then-crash; distinct = distinct (flow, plan, crash point, call log, answer class) among the faulted runs"
+		ctx.Meta.Rule = "every flow of DESIGN Appendix A (token x authorization_code, replayed code, refresh_token, expired refresh token, client_credentials, jwt-bearer for an authenticated client and for nobody (the anonymous client), CIBA approve/deny/pending; introspect; revoke; userinfo; par; authorize plain / implicit / hybrid / in progress / failure / PAR / refused PAR; callback code / implicit / in progress / failure; bc-authorize; NotifyCIBASuccess push/ping/poll; NotifyCIBAFailure; DCR create/update/read/delete) x static and dynamic clients x every storage-call position x {error, not-found on reads} singly and in pairs (second fault at every later position of the singly-faulted run and two positions beyond its last call; error x error, error x not-found, not-found x error; pairs whose second position is not reached are not kept), x every crash point with a restarted provider, thorough (quick: one scenario in six): fault-then-crash; distinct = distinct (flow, plan, crash point, call log, answer class) among the faulted runs"
 		if len(cases) > 0 {
 			s := cases[len(cases)/3]
 			ctx.Meta.Samples = append(ctx.Meta.Samples, map[string]any{"note": s.Note, "faulted_op": s.Op.coq(), "plan": c14Plan(s.Plan), "crash": s.Crash, "log": c14Log(s.Log)})
